@@ -9,7 +9,7 @@
    Committer times are arbitrary integers in every statement: nothing relates
    the time of a commit to the times of its parents. *)
 From Coq Require Import List NArith ZArith Bool Sorting.Sorted.
-From GoGit Require Import Model.RevList Spec.ObjReach Proofs.C37Queue Proofs.C37.
+From GoGit Require Import Model.RevList Spec.ObjReach Proofs.C37Queue Proofs.C37 Proofs.C37Term.
 Import ListNotations.
 Local Open Scope N_scope.
 
@@ -43,6 +43,16 @@ Theorem C37_nodup : forall st sh wants haves res,
   wf_store st = true -> objects st sh wants haves = Ok res -> NoDup res.
 Proof. intros st sh wants haves res Hwf H. exact (nodup st sh wants haves Hwf res H). Qed.
 Print Assumptions C37_nodup.
+
+(* the model never runs out of fuel: on a store whose sub-directories are older
+   than the trees that list them (hashes are acyclic), revlist.Objects of the
+   model answers with a selection or with one of the errors the Go code returns
+   (wanted object missing, parent missing, tree missing) — so the theorems above
+   speak about every run that succeeds *)
+Theorem C37_terminates : forall st sh wants haves,
+  wf_store st = true -> tree_ranked st = true -> objects st sh wants haves <> Err EFuel.
+Proof. intros st sh wants haves Hwf Hr. exact (objects_fuel st Hr sh haves Hwf wants). Qed.
+Print Assumptions C37_terminates.
 
 (* the time-ordered commit queue is always sorted newest first, whatever the
    committer times are; hence sort.Search in insertSorted and the model's
@@ -80,8 +90,8 @@ Definition ex_store : store :=
    (12, Commit 11 [8; 10] 10%Z);
    (13, Tag 12); (14, Tag 13)].
 
-Example C37_ex_wf : wf_store ex_store = true.
-Proof. vm_compute. reflexivity. Qed.
+Example C37_ex_wf : wf_store ex_store = true /\ tree_ranked ex_store = true.
+Proof. vm_compute. split; reflexivity. Qed.
 
 (* want the outer tag, have one side of the merge: the other side, the merge,
    its tree and both tags are selected; blob 1 and tree 4 (held) are not *)
